@@ -146,6 +146,18 @@ def handle (s : Sexp) : D String :=
         | .error e => pure ("rej " ++ e.tag)
   | .list [.atom "theoryguard", neg, cons] => do
       pure s!"{telBodyAccepted (← decBool neg) (← decBool cons)} {delBodyAccepted (← decBool neg) (← decBool cons)}"
+  | .list [.atom "print", h, .list syms] => do
+      -- (print h ((isFunction name positive (args...) lastNum|none rank) ...)) -> the text, newlines as \n
+      let h ← decNat h
+      let ss ← syms.mapM fun s => match s with
+        | .list [f, name, pos, .list args, last, rank] => do
+            let lastNum ← match last with
+              | .atom "none" => pure none
+              | x => do pure (some (← decInt x))
+            pure ({ isFunction := ← decBool f, name := ← decStr name, positive := ← decBool pos,
+                    args := ← args.mapM decStr, lastNum := lastNum, rank := ← decNat rank } : ShownSym)
+        | x => dfail "shown symbol" x
+      pure ((printModel h ss).replace "\n" "\\n")
   | s => .error s!"unknown command: {s.toStr}"
 
 partial def loop (inp : IO.FS.Stream) (out : IO.FS.Stream) : IO Unit := do
